@@ -126,8 +126,8 @@ def check_C12(run):
         ev = []
         for i in range(rng.randint(2, 7)):
             p = f'k{i}'
-            st = rng.choice(['N61', 'N612f62', 'X2f616273', 'Xfffe'])
-            dt = st if rng.random() < 0.6 else rng.choice(['N61', 'N62', 'X2f616273'])
+            st = rng.choice(['N61', 'N612f62', 'X2f616273', 'Xfffe', 'X615c62', 'N2e2e2f642f66', 'X2e2e2f645c66', 'X2f612f62', 'X5c615c62'])
+            dt = st if rng.random() < 0.5 else rng.choice(['N61', 'N62', 'X2f616273', 'N612f62', 'X615c62', 'N2e2e2f642f66', 'X2e2e2f645c66', 'X2f612f62', 'X5c615c62', 'X612f62', 'N615c62'])
             sk, dk = rng.choice('FDU'), rng.choice('FDU')
             ev.append(('E', 'S', p, f'L:{sk}:{st}'))
             if rng.random() < 0.85: ev.append(('E', 'D', p, f'L:{dk}:{dt}'))
